@@ -524,7 +524,9 @@ func checkConcurrent(c Case, o *vf.Obs) error {
 
 // Findings of this check (see /verif/known_findings.json).
 const (
-	// a request header named exactly `url` or `body` shares the template-cache key of the URI / body template
+	// a request header named exactly `url` or `body` shared the template-cache key of the URI / body template
+	// (fixed in /repo b559584; while an id is listed as "known" the generator steers around it, otherwise - as
+	// now - headers with these names are generated and judged like any other)
 	findingTemplateKey = "scenario-templater-cache-key-collision"
 )
 
